@@ -36,7 +36,7 @@ FlagName(n) == CASE n = 0 -> "done" [] n = 1 -> "computing" [] n = 2 -> "shutdow
 
 Dummy == [nw |-> 0, budget |-> 0, batch |-> 1, par |-> TRUE, guard |-> TRUE, init |-> {}, eager |-> 1000, rnum |-> 1, rden |-> 5]
 CfgOf(e) == [nw |-> e.nw, budget |-> e.budget, batch |-> e.batch, par |-> e.par, guard |-> TRUE,
-             init |-> Range(e.init), eager |-> 1000, rnum |-> 1, rden |-> 5]
+             init |-> Range(e.init), eager |-> IF "eager" \in DOMAIN e THEN e.eager ELSE 1000, rnum |-> 1, rden |-> 5]
 
 TInit == l = 1 /\ InitWith(Dummy)
 
